@@ -13,7 +13,7 @@ from ..drv import module_state
 ID = "C19"
 LEVEL = "model_checking"
 ROOT = os.path.dirname(os.path.dirname(os.path.dirname(os.path.abspath(__file__))))
-XSTRATS = "build,bfs,scc,minskip,succskip"
+XSTRATS = "build,bfs,scc,minskip,succskip,aseedsskip"
 
 
 def plan(tier, seed):
@@ -27,6 +27,10 @@ def plan(tier, seed):
     inproc += [("i3", i) for i in U.shard(list(range(1444)), seed, 16 if tier == "quick" else 2)]
     for ch in U.chunks(inproc, 6):
         units.append(("inproc", ch, None))
+    from ..envdump import OVERLAP_MAA
+    for spec in OVERLAP_MAA:   # overlapping skip nodes x motif-avoidant attractor: 3-6 candidates per node, the shape behind D13
+        units.append(("inproc", [spec], None))
+    inproc = inproc + OVERLAP_MAA
     return {
         "units": units,
         "universes": {"hash seeds (one interpreter process each)": nseeds, "networks per process (batch 'small')": len(batch("small")),
